@@ -126,6 +126,10 @@ func (r *vRun) unchangedExcept(pre *vPre, exRoot uint64, except map[uint64]bool,
 }
 
 func (r *vRun) postOp(op uint64, a []uint64, secs []vSection, code, val uint64, before vSnap, rootBefore *[512]uint64, activeFrame uint64, pre *vPre) {
+	if op == 4 {
+		// a failed (re-)Init leaves the table value pointing at a frame that is not an address space
+		r.minit[a[0]&7] = code == 0
+	}
 	switch r.prop {
 	case "c04":
 		r.c04Post(op, a, code, val, rootBefore, activeFrame, pre)
@@ -245,14 +249,14 @@ func (r *vRun) c04InDomain(op uint64, a []uint64, pre *vPre) bool {
 			no("init-frame-unbacked-or-in-use")
 		}
 	case 5, 6:
-		if !r.inited[a[0]&7] {
+		if !r.minit[a[0]&7] {
 			no("uninitialised-pdt")
 		}
 		if in511(a[1]) {
 			no("page-in-recursive-slot")
 		}
 	case 7:
-		if !r.inited[a[0]&7] {
+		if !r.minit[a[0]&7] {
 			no("uninitialised-pdt")
 		}
 	case 8, 9:
@@ -374,7 +378,7 @@ func (r *vRun) c04Post(op uint64, a []uint64, code, val uint64, rootBefore *[512
 		_ = k
 	case 5, 6:
 		k := a[0] & 7
-		if !r.inited[k] {
+		if !r.minit[k] {
 			r.weird = true
 			return
 		}
@@ -390,7 +394,7 @@ func (r *vRun) c04Post(op uint64, a []uint64, code, val uint64, rootBefore *[512
 			}
 		}
 	case 7:
-		if !r.inited[a[0]&7] {
+		if !r.minit[a[0]&7] {
 			r.weird = true
 			return
 		}
